@@ -51,6 +51,8 @@ def build(rng, direction, feat=None):
     deep = rng.random() < 0.35           # nested summaries with links declared on outer summaries
     if deep: n = rng.randint(4, 7)
     id0 = 0 if rng.random() < 0.25 else 1          # ids may start at 0 (a falsy id)
+    contention = (not deep) and rng.random() < 0.25     # several long tasks competing for one resource, some released late
+    if contention: n = rng.randint(3, 6)
     for i in range(n):
         kw = dict(estimate=rng.choice([None, 0, 1, 3.5, 8, 8, 20]), spent=rng.choice([None, None, 0, 1, 9]),
                   resource=rng.choice(['r1', 'r2', None]))
@@ -60,9 +62,15 @@ def build(rng, direction, feat=None):
             kw['min_start'] = datetime(2024, 1, rng.randint(1, 20), rng.choice([0, 0, 10]))
         if rng.random() < 0.3:
             kw['prio'] = rng.choice([1, 'high', None])
+        if contention:
+            kw['resource'] = 'r1'; kw['estimate'] = rng.choice([8, 16, 20, 40, 100, 3.5]); kw['spent'] = rng.choice([None, 0, 1])
+            kw.pop('milestone', None); kw.pop('min_start', None)
+            if rng.random() < 0.35: kw['min_start'] = datetime(2024, 1, rng.randint(8, 20))
         t = Task(i + id0, f't{i + id0}', **kw); tasks.append(t)
         cands = [p for p in tasks[:-1] if not p.milestone]
-        if deep and cands and rng.random() < 0.75:
+        if contention and rng.random() < 0.85:
+            w.roots.append(t)
+        elif deep and cands and rng.random() < 0.75:
             rng.choice(cands[-2:]).children.append(t)
         elif cands and rng.random() < 0.5:
             rng.choice(cands).children.append(t)
